@@ -33,6 +33,10 @@ typedef struct {
     long lo[BD_MAXR], hi[BD_MAXR];
 } bd_log_t;
 
+/* file accesses of the current synchronisation epoch (race check, see shim.c) */
+#define BD_RACELOG 256
+typedef struct { volatile long epoch, lo, hi; volatile int kind, op; } bd_acc_t;
+
 typedef struct {
     volatile int lock;
     volatile int np;
@@ -46,6 +50,8 @@ typedef struct {
     bd_log_t log[BD_MAXLOG];
     volatile long change;        /* bumped on every state change (grace timer) */
     bd_rank_t r[BD_MAXR];
+    volatile int nacc[BD_MAXR];  /* entries written so far into acc[rank][] (ring) */
+    bd_acc_t acc[BD_MAXR][BD_RACELOG];
 } board_t;
 
 void board_init(const char *path, int rank, int np);
@@ -61,5 +67,8 @@ int  board_p2p_poll(void);                  /* call while spinning in a blocked 
 void board_p2p_end(void);
 void board_done(void);
 void board_fail(int code, const char *msg); /* write verdict and exit */
+void board_acc_log(long epoch, int kind, long lo, long hi);   /* record one exact file access of this rank */
+void board_acc_check(long epoch);                              /* after a synchronising collective: conflicts of the finished epoch */
+void board_acc_reset(void);
 extern void (*board_verdict_hook)(const char *msg);  /* called (once, on detecting rank) before _exit */
 #endif
